@@ -297,11 +297,11 @@ func (c *Client) Listen() error {
 				break
 			}
 
+			// A packet that cannot be handled is discarded; it must not end the read
+			// loop, or a single malformed datagram from anyone would leave the client deaf.
 			_, err = c.HandleInbound(buf[:n], from)
 			if err != nil {
-				c.log.Debugf("Failed to handle inbound message: %s. Exiting loop", err)
-
-				break
+				c.log.Debugf("Failed to handle inbound message: %s. Discarding it", err)
 			}
 		}
 
